@@ -116,6 +116,16 @@ class Network:
         """
         return (self._all_addresses.get(address) or WalkableAddress(b"", None, False)).new_style
 
+    def _forget_introduction(self, address: Address) -> None:
+        """
+        An address is removed or gets a new introducer: drop it from the cached introductions.
+
+        :param address: the address that should no longer be attributed to its previous introducer.
+        """
+        for introductions in self.reverse_intro_lookup.values():
+            while address in introductions:
+                introductions.remove(address)
+
     def discover_address(self,
                          peer: Peer,
                          address: Address,
@@ -137,6 +147,7 @@ class Network:
             if ((address not in self._all_addresses)
                     or (self._all_addresses[address].introduced_by not in self.verified_by_public_key_bin)):
                 # This is a new address, or our previous parent has been removed
+                self._forget_introduction(address)
                 self._all_addresses[address] = WalkableAddress(peer.public_key.key_to_bin(), service, new_style)
                 intro_cache = self.reverse_intro_lookup.get(peer, None)
                 if intro_cache:
@@ -337,6 +348,7 @@ class Network:
         """
         with self.graph_lock:
             self._all_addresses.pop(address, None)
+            self._forget_introduction(address)
             # Note that the services_per_peer will never be 0, we abuse the lazy `or` to pop the peers from
             # the services_per_peer mapping if they are no longer included. This is fast.
             new_verified_peers = {peer for peer in self.verified_peers
@@ -357,6 +369,7 @@ class Network:
         with self.graph_lock:
             for address in peer.addresses.values():
                 self._all_addresses.pop(address, None)
+                self._forget_introduction(address)
             if peer in self.verified_peers:
                 self.verified_peers.remove(peer)
                 list(map(methodcaller("on_peer_removed", peer), self.peer_observers))
@@ -392,6 +405,7 @@ class Network:
                 try:
                     address, offset = default_serializer.unpack("address", snapshot, offset)
                     address = cast("Address", address)
+                    self._forget_introduction(address)
                     self._all_addresses[address] = WalkableAddress(b"", None, False)
                 except Exception:
                     if offset <= previous_offset:
